@@ -6,6 +6,6 @@ cd "$(dirname "$0")/.."
 . scripts/env.sh
 OUT=".work/instr.$$"
 mkdir -p "$OUT" .work/bin
-go run ./cmd/instr -repo /repo -vsched "$(pwd)/vsched" -out "$(pwd)/$OUT" dial.go ech.go resolve.go
+go run ./cmd/instr -repo "$VERIF_REPO" -vsched "$(pwd)/vsched" -out "$(pwd)/$OUT" dial.go ech.go resolve.go
 go build -tags "verif vsched" -overlay "$OUT/overlay.json" -o "${1:-.work/bin/check-instr}" ./cmd/check
 rm -rf "$OUT"
